@@ -7,7 +7,8 @@ heads are ``harness.sexpr.A`` atoms.  Conventions of this module (all accepted b
 
 * names are ``A`` atoms (lower case); the only python ``str`` in a program is the text of a ``(nop kind "text")``;
 * "absent" (``param``, ``step``, triplet parts) is ``A('none')``;
-* integers are python ints, logical literals ``(b true|false)`` carry python bools (``dumps`` prints them as atoms);
+* integers are python ints and logical literals ``(b true|false)`` python bools in freshly built programs, atoms after
+  ``canon``; accessors accept both - compare programs with ``dumps(a) == dumps(b)``;
 * negative numbers inside *expressions* are written ``(neg (i 3))`` (see ``normalize``); values in input sets and
   results are plain ``(i -3)`` / ``(r -3 8)``.
 
@@ -212,7 +213,7 @@ def normalize(prog):
 
     * negative literals in expressions become ``(neg literal)`` (a parser never builds a negative literal);
     * comment nops with empty text are dropped, nop texts are stripped;
-    * names become ``A`` atoms, absent parts ``A('none')``, numbers python ints (``canon``).
+    * names, numbers and absent parts become atoms (``canon``).
     """
     def fe(e):
         h = _h(e)
@@ -2081,6 +2082,7 @@ class _UnitGen:
         self.counter = Counter()
         self.left = 0
         self.pending = []       # statements to emit before the one being generated (temporaries of calls)
+        self.alias_base = {}    # associate name -> array it is associated with (whole, element or section)
 
     # ------------------------------------------------------------ declarations
     def declare_scalar(self, name, ty, intent='none', writable=True):
@@ -2607,6 +2609,21 @@ class _UnitGen:
         return NEG(sub(prefer))
 
     def st_assign_section(self, whole=False):
+        """array assignment; where the target shares storage with other names in scope (ASSOCIATE), the statement does
+        not mention those: gfortran 12 misses that dependency and assigns in place (see notes/FIR.md)"""
+        for _ in range(6):
+            s = self._st_assign_section(whole)
+            if s is None:
+                return None
+            t = str(s[1][1])
+            base = self.alias_base.get(t, t)
+            group = {z for z, b in self.alias_base.items() if b == base} | {base}
+            group.discard(t)
+            if not any(_mentions(s[1], x) or _mentions(s[2], x) for x in group):
+                return s
+        return None
+
+    def _st_assign_section(self, whole=False):
         r = self.rng
         arrs = [a for a in self.writable_arrays() if not a.elem_only]
         if not arrs:
@@ -2775,7 +2792,7 @@ class _UnitGen:
     def st_assoc(self, depth):
         r = self.rng
         simple = self.cfg['assoc_selectors'] == 'loki'
-        binds, added_s, added_a = [], [], []
+        binds, added_s, added_a, bases = [], [], [], {}
         for _ in range(r.choice((1, 1, 2))):
             z = self.fresh('z')
             q = r.random()
@@ -2794,6 +2811,7 @@ class _UnitGen:
                 if all(x is not None for x in subs):
                     binds.append([A(z), IDX(a.name, *subs)])
                     added_s.append((z, a.ty, a.writable, None))
+                    bases[z] = self.alias_base.get(a.name, a.name)
                     done = True
             elif q < 0.75 and plain:
                 a = r.choice(plain)
@@ -2811,11 +2829,13 @@ class _UnitGen:
                     dims = [x if k == d else AT(x) for k, x in enumerate(dims)]
                     binds.append([A(z), SEC(a.name, *dims)])
                     added_a.append(_Arr(z, a.ty, [(1, zext)], a.writable, elem_only=True))
+                    bases[z] = self.alias_base.get(a.name, a.name)
                     done = True
             elif q < 0.85 and arrs:
                 a = r.choice(arrs)
                 binds.append([A(z), V(a.name)])
                 added_a.append(_Arr(z, a.ty, list(a.dims), a.writable))
+                bases[z] = self.alias_base.get(a.name, a.name)
                 done = True
             if not done:
                 ty = r.choice(('int', 'real'))
@@ -2849,7 +2869,10 @@ class _UnitGen:
         for a in added_a:
             self.arrays[a.name] = a
             self.defined.add(a.name)
+        self.alias_base.update(bases)
         body = self.gen_block(r.randint(1, 4), depth + 1)
+        for z in bases:
+            del self.alias_base[z]
         for z, ty, wr, src in added_s:
             del self.scalars[z]
             self.writable.discard(z)
